@@ -598,6 +598,13 @@ func (s *Store) CreateDBIfNotExists(name string) (*DB, error) {
 		return db, nil
 	}
 
+	// A database is a file in the mount directory and a directory in the data
+	// directory. Names come from HTTP requests & stream frames so make sure
+	// this one cannot refer to anything outside the database directory.
+	if !isValidDBName(name) {
+		return nil, fmt.Errorf("invalid database name: %q", name)
+	}
+
 	// Generate database directory with name file & empty database file.
 	dbPath := s.DBPath(name)
 	if err := s.OS.MkdirAll("CREATDEDBIFNOTEXISTS", dbPath, 0o777); err != nil {
@@ -622,6 +629,11 @@ func (s *Store) CreateDBIfNotExists(name string) (*DB, error) {
 	storeDBCountMetric.Set(float64(len(s.dbs)))
 
 	return db, nil
+}
+
+// isValidDBName returns true if name can be the file name of a database.
+func isValidDBName(name string) bool {
+	return name != "" && name != "." && name != ".." && len(name) <= 255 && !strings.ContainsAny(name, "/\x00")
 }
 
 // PosMap returns a map of databases and their transactional position.
